@@ -39,6 +39,8 @@ pub struct GenOpts {
     pub twins: bool,
     /// `fallback_to_usage()` on some levels
     pub usage_fallback: bool,
+    /// `any` / `literal` parsers, `.anywhere()` (only where no expectation about values is made)
+    pub any: bool,
     /// custom help/version flag names
     pub custom_help: bool,
     /// chains of `adjacent()` commands (`cmd1 --a cmd2 --b cmd1 ..`)
@@ -73,6 +75,7 @@ impl GenOpts {
             cmd_or_words: false,
             twins: false,
             usage_fallback: false,
+            any: false,
             custom_help: false,
             adjacent_cmds: false,
         }
@@ -104,6 +107,7 @@ impl GenOpts {
             cmd_or_words: false,
             twins: false,
             usage_fallback: false,
+            any: false,
             custom_help: false,
             adjacent_cmds: false,
         }
@@ -495,6 +499,20 @@ impl<'a> Pool<'a> {
             };
             res.push(s);
         }
+        if self.o.any && self.rng.chance(1, 6) {
+            // a catch-all at the very end: `any("REST", ..).many()`
+            let accept = if self.rng.chance(1, 2) {
+                AnyAccept::All
+            } else {
+                AnyAccept::NoDash
+            };
+            let it = Spec::Item(self.any_item(accept, false));
+            res.push(match self.rng.below(3) {
+                0 => it,
+                1 => Spec::wrap(W::Optional { catch: false }, self.id(), it),
+                _ => Spec::wrap(W::Many { catch: false }, self.id(), it),
+            });
+        }
         res
     }
 
@@ -717,6 +735,59 @@ impl<'a> Pool<'a> {
         }
     }
 
+    fn any_item(&mut self, accept: AnyAccept, anywhere: bool) -> Item {
+        let id = self.id();
+        Item {
+            id,
+            names: Names::default(),
+            help: self.help(id),
+            leaf: Leaf::Any {
+                metavar: format!("ANY{}", id),
+                accept,
+                anywhere,
+            },
+        }
+    }
+
+    /// `any(..).anywhere()` among the named items: a literal tag (`-mode`, `+x`), a prefix family
+    /// (`+...`), or a find-like block `-exec ITEM... ;`
+    pub fn any_field(&mut self) -> Spec {
+        let lit = *self.rng.pick(&["-mode", "+x", "-exec", "--", "=", "-"]);
+        match self.rng.below(4) {
+            0 => {
+                let tag = Spec::Item(self.any_item(AnyAccept::Exact(lit.to_string()), true));
+                let body = Spec::Item(self.any_item(AnyAccept::Not(";".into()), false));
+                let body = Spec::wrap(W::Many { catch: false }, self.id(), body);
+                let end = Spec::Item(self.any_item(AnyAccept::Exact(";".into()), false));
+                let g = Spec::Adj(vec![tag, body, end]);
+                match self.rng.below(3) {
+                    0 => g,
+                    1 => Spec::wrap(W::Optional { catch: false }, self.id(), g),
+                    _ => Spec::wrap(W::Many { catch: false }, self.id(), g),
+                }
+            }
+            1 => {
+                let tag = Spec::Item(self.any_item(AnyAccept::Exact(lit.to_string()), true));
+                let val = Spec::Item(self.pos_item(Strict::Any));
+                let g = Spec::Adj(vec![tag, val]);
+                Spec::wrap(W::Optional { catch: false }, self.id(), g)
+            }
+            k => {
+                let accept = if k == 2 {
+                    AnyAccept::Prefix("+".into())
+                } else {
+                    AnyAccept::Exact(lit.to_string())
+                };
+                let it = Spec::Item(self.any_item(accept, true));
+                match self.rng.below(3) {
+                    0 => it,
+                    1 => Spec::wrap(W::Optional { catch: false }, self.id(), it),
+                    _ => Spec::wrap(W::Many { catch: false }, self.id(), it),
+                }
+            }
+        }
+    }
+
     /// `--color=WHEN | --color` / `-s=BYTES | -s=PERCENT`: two visible items of one level with the
     /// same names and the same (or no) help text that differ in kind or in metavariable
     pub fn twin_group(&mut self) -> Spec {
@@ -797,7 +868,9 @@ impl<'a> Pool<'a> {
                 break;
             }
             let r = self.rng.below(10);
-            if self.o.twins && r == 3 && self.rng.chance(1, 2) {
+            if self.o.any && r == 4 && self.rng.chance(1, 2) {
+                fields.push(self.any_field());
+            } else if self.o.twins && r == 3 && self.rng.chance(1, 2) {
                 fields.push(self.twin_group());
             } else if self.o.alts && r == 0 {
                 fields.push(self.alt_group());
